@@ -88,6 +88,17 @@ CORPUS = [
     "conv T0:26.1.0.0,8.100.0.0,26.0.0.0 T100:2.36.1.1 T36:13.7.0.0,2.40.1.0",     # a subroutine called in drum mode is written in drum mode
     "conv T0:26.1.0.0,2.32.24.0,26.0.0.0 T32:4.0.0.0,2.40.1.0,6.2.0.0",             # the routine's note inside a loop: refused (repo fix b6d6699), outside the domain
     "conv T0:26.1.0.0,2.32.24.0,26.0.0.0 T32:4.0.0.0,13.5.0.0,6.2.0.0,2.40.1.0",    # a loop before the routine's note: fine
+    # pitch envelopes (`@M` definitions: M:<id>=<form>:<k>:<expected data bank index>; PITCH_ENVELOPE = event 23): compact, on / off
+    "conv M:1=c:5:1 T0:23.1.0.0,2.36.24.0,23.0.0.0,2.38.12.12",
+    # compact and extended (a slide too steep for the compact form), switched between
+    "conv M:1=c:5:1 M:2=x:7:2 T0:23.2.0.0,2.36.24.0,23.1.0.0,2.38.24.0,23.0.0.0,2.40.24.0",
+    # inside a loop with a break and inside a subroutine; loop mark and vibrato macro forms
+    "conv M:3=l:9:1 M:4=v:1:2 T0:4.0.0.0,23.3.0.0,8.100.0.0,5.0.0.0,23.0.0.0,6.2.0.0 T100:23.4.0.0,2.40.6.6",
+    # next to an instrument; two ids with the same bytes share one data bank entry; behind the loop point
+    "conv I:1=fm:3:1 M:1=c:5:2 M:2=c:5:2 M:3=x:5:3 T0:17.1.0.0,23.1.0.0,2.36.2.0,7.0.0.0,23.2.0.0,23.3.0.0,2.36.2.0",
+    "conv T0:23.7.0.0,2.36.2.0",                                   # an undefined pitch envelope: input error, outside the domain
+    "conv M:1=c:5:1 T0:4.0.0.0,2.36.2.0,23.9.0.0,6.2.0.0",        # the same inside a loop
+    "convo 0 M:1=c:5:1 M:2=x:6:2 T0:23.1.0.0,2.36.6.0,2.36.6.0,2.36.6.0,2.36.6.0,2.36.6.0,2.36.6.0,23.2.0.0,2.36.6.0,23.2.0.0,2.36.6.0,23.2.0.0,2.36.6.0,23.2.0.0,2.36.6.0",
 ]
 
 DURS = [1, 2, 127, 128, 129, 256, 65535]
@@ -136,6 +147,58 @@ def adjacency_cases(rng, T, count):
     return out
 
 
+PEG_FORMS = ["c", "x", "l", "v"]
+
+
+def peg_defs(rng, ids, first_index):
+    """`M:` tokens for the pitch envelope ids `ids`, with the data bank index each one gets: MDSDRV_Data::read_song adds
+    the definitions in tag order after index 0 (the default PSG envelope) and the instruments; equal bytes share one entry"""
+    toks, seen = [], {}
+    nxt = first_index
+    for i in ids:
+        form = rng.choice(PEG_FORMS)
+        k = rng.randrange(100)
+        key = {"c": ("c", k % 100), "x": ("x", 1 + k % 100), "l": ("l", k % 100, k % 50, 1 + k % 7), "v": ("v", k % 5)}[form]
+        if key not in seen:
+            seen[key] = nxt
+            nxt += 1
+        toks.append("M:%d=%s:%d:%d" % (i, form, k, seen[key]))
+    return toks
+
+
+def pitch_cases(rng, T, count):
+    """pitch envelopes end to end: `@M` definitions (compact, extended, with a loop mark, vibrato macro), switched on, to
+    another one and off (`M0`), at the top level, inside counted loops (before and behind the break), in subroutines
+    (which are written once and called from places with different envelopes), behind the loop point"""
+    PE = lambda i: (T["PITCH_ENVELOPE"], i, 0, 0)
+    LS, LB = (T["LOOP_START"], 0, 0, 0), (T["LOOP_BREAK"], 0, 0, 0)
+    LE = lambda c: (T["LOOP_END"], c, 0, 0)
+    N = lambda: (T["NOTE"], rng.randrange(30, 60), rng.choice([1, 6, 24, 130]), rng.choice([0, 0, 6]))
+    for _ in range(count):
+        ids = rng.sample(range(1, 30), rng.choice([1, 2, 3, 4]))
+        defs = peg_defs(rng, ids, 1)
+        pick = lambda: rng.choice(ids + [0])
+        shape = rng.choice(["top", "loop", "loop-break", "sub", "sub-loop", "segno", "nested"])
+        sub = [PE(pick()), N()] + ([PE(0)] if rng.random() < 0.5 else [])
+        if shape == "top":
+            song = {0: [PE(pick()), N(), PE(pick()), N(), PE(0), N()]}
+        elif shape == "loop":
+            song = {0: [N(), LS, PE(pick()), N(), PE(pick()), LE(rng.choice([2, 3])), N()]}
+        elif shape == "loop-break":
+            song = {0: [PE(pick()), LS, N(), PE(pick()), LB, PE(pick()), N(), LE(2), N()]}
+        elif shape == "sub":
+            song = {0: [PE(pick()), (T["JUMP"], 100, 0, 0), PE(pick()), (T["JUMP"], 100, 0, 0), N()], 100: sub}
+        elif shape == "sub-loop":
+            song = {0: [LS, (T["JUMP"], 100, 0, 0), LB, PE(pick()), N(), LE(3)], 100: sub}
+        elif shape == "segno":
+            song = {0: [PE(pick()), N(), (T["SEGNO"], 0, 0, 0), N(), PE(pick()), N()]}
+        else:
+            song = {0: [LS, PE(pick()), LS, N(), LB, PE(pick()), LE(2), N(), LE(2), PE(0), N()]}
+        if rng.random() < 0.3:
+            song[1] = [PE(pick()), N(), N()]
+        yield Case("conv " + " ".join(defs + [songgen.render(song)]), ("pitch", shape), "pitch")
+
+
 def nested_break_cases(T, tier):
     LS, LB = (T["LOOP_START"], 0, 0, 0), (T["LOOP_BREAK"], 0, 0, 0)
     LE = lambda c: (T["LOOP_END"], c, 0, 0)
@@ -178,6 +241,8 @@ def _cases_orig(rng, tier):
     # after each loop end depends on which exit was taken (bounded-exhaustive over two lengths)
     for song, name in nested_break_cases(T, tier):
         yield Case("conv " + songgen.render(song), ("nested-break", name), "nested-break")
+    for c in pitch_cases(rng, T, 60 if tier == "quick" else 800):
+        yield c
     n = 300 if tier == "quick" else 5000
     made = 0
     while made < n:
@@ -247,6 +312,16 @@ def _cases_orig(rng, tier):
             extra.append("I:2=psg:%d:2" % rng.randrange(100))
             song[0].insert(0, g.ev("INS", 1))
             tags.add("ins")
+        if rng.random() < 0.2:
+            # pitch envelopes: definitions behind the instruments (data bank indices continue), switched anywhere in
+            # channel 0 (inside loops too) and in the first subroutine
+            ids = rng.sample(range(1, 30), rng.choice([1, 2, 3]))
+            extra.extend(peg_defs(rng, ids, 3 if "ins" in tags else 1))
+            for _ in range(rng.choice([1, 2, 3])):
+                song[0].insert(rng.randrange(0, len(song[0]) + 1), g.ev("PITCH_ENVELOPE", rng.choice(ids + [0])))
+            if 100 in song and rng.random() < 0.5:
+                song[100].insert(rng.randrange(0, len(song[100]) + 1), g.ev("PITCH_ENVELOPE", rng.choice(ids + [0])))
+            tags.add("pitch")
         if any(songgen.expanded_size(song, t, T) > 1500 for t in range(ntr)):
             continue
         flat = [e for evs in song.values() for e in evs]
